@@ -690,14 +690,20 @@ class QueryObjectDescriptor(CanBehaveLikeAVariable[T], ABC):
                 self._is_false_ = self._child_._is_false_
             if self._is_false_ and not self._yield_when_false_:
                 continue
+            rows = [v]
             if self._child_:
                 for conclusion in self._child_._conclusion_:
-                    v = conclusion._evaluate__(v)
-            self._warn_on_unbound_variables_(v, selected_vars)
-            if selected_vars:
-                yield from self._bind_selected_variables_(v, list(selected_vars))
-            else:
-                yield v
+                    if hasattr(conclusion, '_evaluate_all_'):
+                        # a conclusion is drawn for every value of what it concludes with, not for the first one only.
+                        rows = [concluded for row in rows for concluded in conclusion._evaluate_all_(row)]
+                    else:
+                        rows = [conclusion._evaluate__(row) for row in rows]
+            for v in rows:
+                self._warn_on_unbound_variables_(v, selected_vars)
+                if selected_vars:
+                    yield from self._bind_selected_variables_(v, list(selected_vars))
+                else:
+                    yield v
 
     def _bind_selected_variables_(self, bindings: Dict[int, HashedValue],
                                   selected_vars: List[CanBehaveLikeAVariable]) -> Iterable[Dict[int, HashedValue]]:
